@@ -103,6 +103,11 @@ def opC04Parse (args : List W) : String :=
     | _, _, _, _, _, _ => "bad-decode"
   | _ => "bad-arity"
 
+/-- DESIGN.md §6: hostnames given to `NewRequestForHostname` / `DNSRequest` are lower-case by contract
+    (`FillRequestForHostname` does not lower-case `URLLowerCase`; `c05_hostname_lowercase_needed`).  A
+    hostname request with an upper-case ASCII letter in its name is outside the domain: `ood`. -/
+def hostnameCaseOK (q : Request) : Bool := !q.isHostnameRequest || !q.hostname.any Bytes.isUpper
+
 /-- `c04.match <R> <Q> <psl> <addrs> (<pat>…)`: model = `NetRule.matches`, spec = `specMatch`
     (from the modifier values); `ood` outside the request domain of C04. -/
 def opC04Match (args : List W) : String :=
@@ -110,7 +115,7 @@ def opC04Match (args : List W) : String :=
   | [r, q, psl, addrs, pats] =>
     match decNetRule r, decRequest q, decPslTable psl, decAddrTable addrs, decPatTable pats with
     | some r, some q, some psl, some addrs, some pats =>
-      if !q.inDomainB then "ood ood" else
+      if !q.inDomainB || !hostnameCaseOK q then "ood ood" else
       let ext := mkExt psl addrs pats
       outBool (r.matches ext q) ++ " " ++ outBool (specMatch ext r q)
     | _, _, _, _, _ => "bad-decode"
@@ -127,7 +132,7 @@ def opC04TextMatch (args : List W) : String :=
     | some text, some id, some addrs, some prefixes, some rewrites, some shortcuts, some q, some psl, some pats =>
       let px := mkParseExt psl addrs prefixes rewrites shortcuts pats
       let res := E.parseNetRule px text id
-      if !parseInDomain res || !q.inDomainB then "ood ood" else
+      if !parseInDomain res || !q.inDomainB || !hostnameCaseOK q then "ood ood" else
       match res with
       | .ok r => outBool (r.matches px.ext q) ++ " " ++ outBool (specMatch px.ext r q)
       | .error .err => "err err"
